@@ -68,9 +68,12 @@ func render(l lineT, variant int) string {
 	case "blank":
 		return []string{"", "   ", "\t"}[variant%3]
 	case "comment":
-		return []string{"# a comment", "#" + e, "// " + e}[variant%3]
+		// a commented-out key is not a listed key: the key that is commented out is k1, the one the histories log in with
+		k1 := key("k1")
+		ck := k1.String()
+		return []string{"# a comment", "#" + ck, "// " + ck, "# " + ck, "#\t" + ck + " old laptop"}[variant%5]
 	case "garbage":
-		return []string{"not a key", "hop-dh-v1-", "hop-dh-v1-!!!!"}[variant%3]
+		return []string{"not a key", "hop-dh-v1-", "hop-dh-v1-!!!!", "REVOKED " + func() string { k := key("k1"); return k.String() }()}[variant%4]
 	case "trunc":
 		return []string{e[:len(e)-5], e[:len(e)-1], e[:len(e)-4]}[variant%3]
 	case "prefix":
